@@ -80,6 +80,8 @@ func renderDecl(i int, s comScen) string {
 		body = fmt.Sprintf("%s%sconst K%d = 1%s\n%s", detached, doc, i, trailing, strings.ReplaceAll(inside, "\t", ""))
 	case "func":
 		body = fmt.Sprintf("%s%sfunc F%d() {\n%s}%s\n", detached, doc, i, inside, trailing)
+	case "import":
+		body = fmt.Sprintf("%s%simport \"fmt\"%s\n%s\nvar _ = fmt.Sprint\n", detached, doc, trailing, strings.ReplaceAll(inside, "\t", ""))
 	}
 	return "package p\n\n" + body
 }
